@@ -10,6 +10,7 @@ pub mod infra;
 pub mod justice;
 pub mod ledger;
 pub mod onchain;
+pub mod onionline;
 pub mod roundtrip;
 pub mod oracle;
 pub mod sched;
@@ -102,7 +103,7 @@ fn run_world_inner(mut wd: World, mut rng: Option<Rng>, trace: Option<Vec<Action
 			if !wd.dead {
 				wd.apply(&Action::Settle);
 			}
-			if !wd.dead && !wd.strict_offchain {
+			if !wd.dead && !wd.strict_offchain && wd.cfg.profile != "onionline" {
 				if wd.cfg.profile == "justice" {
 					if let Some(a) = sched::gen_cheat(&wd, &mut sched) {
 						wd.apply(&a);
